@@ -39,65 +39,111 @@ theorem getD_succ_eq_nextOf (o : Option Nat) (h : o.isSome) : o.getD 0 + 1 = nex
 theorem update_fst_other (m : Keeper) (k k' : Key) (h : k' ≠ k) : (m.update k).1 k' = m k' := by
   simp [Keeper.update, set_other _ _ _ _ h]
 
+theorem cleanU_keep (w now : Nat) (m : Keeper) (u : Used) (k : Key) (h : droppedAt w now (u k) k = false) :
+    (m.cleanU w u now) k = m k := by
+  simp [Keeper.cleanU, h]
+
+theorem cleanU_drop (w now : Nat) (m : Keeper) (u : Used) (k : Key) (h : droppedAt w now (u k) k = true) :
+    (m.cleanU w u now) k = none := by
+  simp [Keeper.cleanU, h]
+
+@[simp] theorem used_set_same (u : Used) (k : Key) (t : Nat) : (u.set k t) k = t := by simp [Used.set]
+
+theorem used_set_other (u : Used) (k k' : Key) (t : Nat) (h : k' ≠ k) : (u.set k t) k' = u k' := by
+  simp [Used.set, h]
+
 /-- The epoch time is never dropped. -/
-theorem dropped_epoch (w now : Nat) (k : Key) (h : k.time = 0) : dropped w now k = false := by
-  simp [dropped, h]
+theorem droppedAt_epoch (w now t : Nat) (k : Key) (h : k.time = 0) : droppedAt w now t k = false := by
+  simp [droppedAt, h]
+
+theorem threshold_eq (w now : Nat) (hw : w ≤ now) (hn : now < 2 ^ 64) : threshold w now = now - w := by
+  unfold threshold
+  have : now + 2 ^ 64 - w = (now - w) + 2 ^ 64 := by omega
+  rw [this, Nat.add_mod_right, Nat.mod_eq_of_lt (by omega)]
+
+/-- A time that is at most `w` older than the clock (or in the future) is not dropped. -/
+theorem droppedAt_window (w now t : Nat) (k : Key) (hw : w ≤ now) (hn : now < 2 ^ 64)
+    (h : now - t ≤ w) : droppedAt w now t k = false := by
+  simp [droppedAt, threshold_eq w now hw hn]
+  omega
+
+/-- The epoch time is never dropped. -/
+theorem dropped_epoch (w now : Nat) (k : Key) (h : k.time = 0) : dropped w now k = false :=
+  droppedAt_epoch w now k.time k h
 
 /-- A creation time that is at most `w` older than the clock (or in the future) is not dropped. -/
 theorem dropped_window (w now : Nat) (k : Key) (hw : w ≤ now) (hn : now < 2 ^ 64)
-    (h : now - k.time ≤ w) : dropped w now k = false := by
-  have : threshold w now = now - w := by
-    unfold threshold
-    have : now + 2 ^ 64 - w = (now - w) + 2 ^ 64 := by omega
-    rw [this, Nat.add_mod_right, Nat.mod_eq_of_lt (by omega)]
-  simp [dropped, this]
-  omega
+    (h : now - k.time ≤ w) : dropped w now k = false :=
+  droppedAt_window w now k.time k hw hn h
 
 /-! ### scripts on a bare IdKeeper -/
 
-theorem runOps_nil (w : Nat) (auto : Bool) (m : Keeper) : runOps w auto m [] = (m, []) := rfl
+theorem runOps_nil (w : Nat) (auto : Bool) (m : Keeper) (u : Used) : runOps w auto m u [] = (m, []) := rfl
 
-theorem runOps_upd (w : Nat) (auto : Bool) (m : Keeper) (k : Key) (now : Nat) (ops : List Op) :
-    (runOps w auto m (.upd k now :: ops)).2 =
+theorem runOps_upd (w : Nat) (auto : Bool) (m : Keeper) (u : Used) (k : Key) (now : Nat) (ops : List Op) :
+    (runOps w auto m u (.upd k now :: ops)).2 =
       (k, nextOf (m k)) ::
-        (runOps w auto (if auto then (m.update k).1.clean w now else (m.update k).1) ops).2 := by
+        (runOps w auto (if auto then (m.update k).1.cleanU w (u.set k now) now else (m.update k).1)
+          (u.set k now) ops).2 := by
   simp [runOps]
 
-theorem runOps_clean (w : Nat) (auto : Bool) (m : Keeper) (now : Nat) (ops : List Op) :
-    runOps w auto m (.clean now :: ops) = runOps w auto (m.clean w now) ops := rfl
+theorem runOps_clean (w : Nat) (auto : Bool) (m : Keeper) (u : Used) (now : Nat) (ops : List Op) :
+    runOps w auto m u (.clean now :: ops) = runOps w auto (m.cleanU w u now) u ops := rfl
 
 /-- Is this script element an `update` of tuple `κ`? -/
 def isUpd (κ : Key) : Op → Bool
   | .upd k _ => k = κ
   | .clean _ => false
 
-/-- While no `clean` of the script drops tuple `κ`, the numbers handed to `κ` are exactly
+/-- While no `clean` of the script comes more than a window after the last use of tuple `κ` (the use before
+the script, `u κ`, and the `update`s of `κ` in the script), the numbers handed to `κ` are exactly
 `next, next+1, next+2, …` where `next` is 0 for an unknown tuple and `last + 1` otherwise. -/
 theorem seqsOf_eq (w : Nat) (auto : Bool) (κ : Key) (ops : List Op) :
-    ∀ (m : Keeper), (∀ op ∈ ops, op.cleans auto = true → dropped w op.now κ = false) →
-      seqsOf w auto κ m ops = List.range' (nextOf (m κ)) (ops.countP (isUpd κ)) := by
+    ∀ (m : Keeper) (u : Used),
+      (∀ op ∈ ops, op.cleans auto = true → droppedAt w op.now (u κ) κ = false) →
+      (∀ op ∈ ops, op.cleans auto = true → ∀ op' ∈ ops, isUpd κ op' = true →
+        droppedAt w op.now op'.now κ = false) →
+      seqsOf w auto κ m u ops = List.range' (nextOf (m κ)) (ops.countP (isUpd κ)) := by
   induction ops with
-  | nil => intro m _; simp [seqsOf, runOps_nil]
+  | nil => intro m u _ _; simp [seqsOf, runOps_nil]
   | cons op ops ih =>
-    intro m h
-    have hrest : ∀ op' ∈ ops, op'.cleans auto = true → dropped w op'.now κ = false :=
-      fun op' ho => h op' (List.mem_cons_of_mem _ ho)
+    intro m u h0 h
+    have hrest : ∀ op' ∈ ops, op'.cleans auto = true → ∀ op'' ∈ ops, isUpd κ op'' = true →
+        droppedAt w op'.now op''.now κ = false :=
+      fun op' ho hc op'' ho'' hu => h op' (List.mem_cons_of_mem _ ho) hc op'' (List.mem_cons_of_mem _ ho'') hu
+    have h0rest : ∀ op' ∈ ops, op'.cleans auto = true → droppedAt w op'.now (u κ) κ = false :=
+      fun op' ho => h0 op' (List.mem_cons_of_mem _ ho)
     cases op with
     | clean now =>
-      have hk : dropped w now κ = false := h (.clean now) (List.mem_cons_self ..) rfl
-      have := ih (m.clean w now) hrest
+      have hk : droppedAt w now (u κ) κ = false := h0 (.clean now) (List.mem_cons_self ..) rfl
+      have := ih (m.cleanU w u now) u h0rest hrest
       simp only [seqsOf, runOps_clean] at this ⊢
-      rw [this, clean_keep _ _ _ _ hk]
+      rw [this, cleanU_keep _ _ _ _ _ hk]
       simp [isUpd]
     | upd k now =>
+      -- the last use of κ after this element
+      have hu' : ∀ op' ∈ ops, op'.cleans auto = true → droppedAt w op'.now ((u.set k now) κ) κ = false := by
+        intro op' ho hc
+        by_cases hkκ : κ = k
+        · subst hkκ
+          rw [used_set_same]
+          exact h op' (List.mem_cons_of_mem _ ho) hc (.upd κ now) (List.mem_cons_self ..) (by simp [isUpd])
+        · rw [used_set_other _ _ _ _ hkκ]
+          exact h0rest op' ho hc
       -- the map after this element, at κ
-      have hκ : (if auto then (m.update k).1.clean w now else (m.update k).1) κ = (m.update k).1 κ := by
+      have hκ : (if auto then (m.update k).1.cleanU w (u.set k now) now else (m.update k).1) κ = (m.update k).1 κ := by
         cases auto with
         | false => rfl
         | true =>
-          have hk : dropped w now κ = false := h (.upd k now) (List.mem_cons_self ..) rfl
-          simp [clean_keep _ _ _ _ hk]
-      have := ih (if auto then (m.update k).1.clean w now else (m.update k).1) hrest
+          have hk : droppedAt w now ((u.set k now) κ) κ = false := by
+            by_cases hkκ : κ = k
+            · subst hkκ
+              rw [used_set_same]
+              exact h (.upd κ now) (List.mem_cons_self ..) rfl (.upd κ now) (List.mem_cons_self ..) (by simp [isUpd])
+            · rw [used_set_other _ _ _ _ hkκ]
+              exact h0 (.upd k now) (List.mem_cons_self ..) rfl
+          simp [cleanU_keep _ _ _ _ _ hk]
+      have := ih (if auto then (m.update k).1.cleanU w (u.set k now) now else (m.update k).1) (u.set k now) hu' hrest
       simp only [seqsOf] at this ⊢
       rw [runOps_upd]
       by_cases hkκ : k = κ
@@ -189,6 +235,7 @@ theorem prog_code : prog Cfg.code = [.lock, .read, .write, .stamp, .unlock, .cle
     (n.setTh i t).th j = if j = i then t else n.th j := rfl
 @[simp, grind =] theorem setTh_keeper (n : Node) (i : Nat) (t : Th) : (n.setTh i t).keeper = n.keeper := rfl
 @[simp, grind =] theorem setTh_holder (n : Node) (i : Nat) (t : Th) : (n.setTh i t).holder = n.holder := rfl
+@[simp, grind =] theorem setTh_used (n : Node) (i : Nat) (t : Th) : (n.setTh i t).used = n.used := rfl
 @[simp, grind =] theorem setTh_store (n : Node) (i : Nat) (t : Th) : (n.setTh i t).store = n.store := rfl
 @[simp, grind =] theorem setTh_sent (n : Node) (i : Nat) (t : Th) : (n.setTh i t).sent = n.sent := rfl
 
@@ -218,33 +265,49 @@ structure Inv (subs : Nat → Sub) (A : Nat → Prop) (n : Node) : Prop where
   s : ∀ i, 4 ≤ (n.th i).pc → (n.th i).seq < nextOf (n.keeper (subs i).key)
   d : ∀ i j, i ≠ j → 4 ≤ (n.th i).pc → 4 ≤ (n.th j).pc → (subs i).key = (subs j).key →
         (n.th i).seq ≠ (n.th j).seq
+  /-- the tuple of a submission that has written its number was last used at a participant's clock reading:
+      no participant's `clean` drops it -/
+  u : ∀ i j, A i → 3 ≤ (n.th j).pc →
+        droppedAt Cfg.code.window (subs i).now (n.used (subs j).key) (subs j).key = false
 
-theorem inv_init (subs : Nat → Sub) (A : Nat → Prop) (k0 : Keeper) : Inv subs A (Node.init subs k0) := by
+theorem inv_init (subs : Nat → Sub) (A : Nat → Prop) (k0 : Keeper) (u0 : Used) :
+    Inv subs A (Node.init subs k0 u0) := by
   constructor <;> simp [Node.init]
 
 theorem inv_step (subs : Nat → Sub) (A : Nat → Prop)
-    (hret : ∀ i j, A i → A j → dropped Cfg.code.window (subs i).now (subs j).key = false)
+    (hret : ∀ i j, A i → A j → droppedAt Cfg.code.window (subs i).now (subs j).now (subs j).key = false)
     (n : Node) (a : Act) (ha : ∀ i, a = .step i → A i) (h : Inv subs A n) :
     Inv subs A (step Cfg.code subs n a) := by
   cases a with
-  | retry p => exact ⟨h.act, h.l1, h.l2, h.r, h.w, h.s, h.d⟩
+  | retry p => exact ⟨h.act, h.l1, h.l2, h.r, h.w, h.s, h.d, h.u⟩
   | step i =>
     have hA : A i := ha i rfl
-    obtain ⟨hact, hl1, hl2, hr, hw, hs, hd⟩ := h
+    obtain ⟨hact, hl1, hl2, hr, hw, hs, hd, hu⟩ := h
     rcases step_code_cases subs n i with ⟨hpc, he⟩ | ⟨hpc, he⟩ | ⟨hpc, he⟩ | ⟨hpc, he⟩ | ⟨hpc, he⟩ |
         ⟨hpc, he⟩ | ⟨hpc, he⟩ | ⟨hpc, he⟩ | ⟨hpc, he⟩ <;> rw [he]
     · -- lock
       unfold exec
       by_cases hh : n.holder = none
       · simp only [hh, if_true]
-        constructor <;> simp only [Node.bump, setTh_th, setTh_keeper, setTh_holder] <;> grind
-      · simp only [hh, if_false]; exact ⟨hact, hl1, hl2, hr, hw, hs, hd⟩
+        constructor <;> simp only [Node.bump, setTh_th, setTh_keeper, setTh_holder, setTh_used] <;> grind
+      · simp only [hh, if_false]; exact ⟨hact, hl1, hl2, hr, hw, hs, hd, hu⟩
     · -- read
       unfold exec
-      constructor <;> simp only [Node.bump, setTh_th, setTh_keeper, setTh_holder] <;> grind
+      constructor <;> simp only [Node.bump, setTh_th, setTh_keeper, setTh_holder, setTh_used] <;> grind
     · -- write
       unfold exec
-      constructor <;> simp only [Node.bump, setTh_th, setTh_keeper, setTh_holder, Keeper.set] <;> grind [nextOf]
+      refine ⟨?_, ?_, ?_, ?_, ?_, ?_, ?_, ?_⟩
+      iterate 7 (simp only [Node.bump, setTh_th, setTh_keeper, setTh_holder, setTh_used, Keeper.set]; grind [nextOf])
+      · -- the tuple's last use is this submission's clock reading
+        intro i0 j hA0 hj
+        simp only [Node.bump, setTh_th, setTh_used] at hj ⊢
+        by_cases hk : (subs j).key = (subs i).key
+        · rw [hk, used_set_same]
+          exact hret i0 i hA0 hA
+        · rw [used_set_other _ _ _ _ hk]
+          have hji : j ≠ i := fun e => hk (e ▸ rfl)
+          simp only [hji, if_false] at hj
+          exact hu i0 j hA0 hj
     · -- stamp (with the skip loop: the number is at least the counter, and the counter follows it)
       unfold exec
       have hsome := (hw i hpc).1
@@ -253,35 +316,42 @@ theorem inv_step (subs : Nat → Sub) (A : Nat → Prop)
       have hskip : Cfg.code.skipKnown = true := rfl
       generalize stampSeq Cfg.code n (subs i).key = q at hle ⊢
       simp only [hskip, if_true]
-      constructor <;> simp only [Node.bump, setTh_th, setTh_keeper, setTh_holder, Keeper.set] <;> grind [nextOf]
+      constructor <;> simp only [Node.bump, setTh_th, setTh_keeper, setTh_holder, setTh_used, Keeper.set] <;> grind [nextOf]
     · -- unlock
       unfold exec
-      constructor <;> simp only [Node.bump, setTh_th, setTh_keeper, setTh_holder] <;> grind
+      constructor <;> simp only [Node.bump, setTh_th, setTh_keeper, setTh_holder, setTh_used] <;> grind
     · -- clean
       unfold exec
-      have hkeep : ∀ j, 0 < (n.th j).pc → (n.keeper.clean Cfg.code.window (subs i).now) (subs j).key = n.keeper (subs j).key :=
-        fun j hj => clean_keep _ _ _ _ (hret i j hA (hact j hj))
       cases hh : n.holder with
-      | some j => simpa [Cfg.code] using ⟨hact, hl1, hl2, hr, hw, hs, hd⟩
+      | some j => simpa [Cfg.code] using ⟨hact, hl1, hl2, hr, hw, hs, hd, hu⟩
       | none =>
         have hnone : ∀ j, 1 ≤ (n.th j).pc → (n.th j).pc ≤ 4 → False := fun j h1 h2 => by
           have := hl1 j h1 h2; simp [hh] at this
-        simp only [Option.isSome_none, Bool.and_false, Bool.false_eq_true, if_false]
-        constructor <;> simp only [Node.bump, setTh_th, setTh_keeper, setTh_holder] <;> grind
+        have hkeep : ∀ j, 0 < (n.th j).pc →
+            (n.keeper.cleanU Cfg.code.window n.used (subs i).now) (subs j).key = n.keeper (subs j).key := by
+          intro j hj
+          apply cleanU_keep
+          apply hu i j hA
+          rcases Nat.lt_or_ge (n.th j).pc 5 with h5 | h5
+          · exact (hnone j hj (by omega)).elim
+          · omega
+        have hby : Cfg.code.byUse = true := rfl
+        simp only [Option.isSome_none, Bool.and_false, Bool.false_eq_true, if_false, hby, if_true]
+        constructor <;> simp only [Node.bump, setTh_th, setTh_keeper, setTh_holder, setTh_used] <;> grind
     · -- push
       unfold exec
       by_cases hk : knows n.store (bundleOf subs n i).id = true
       · simp only [hk, if_true]
-        constructor <;> simp only [Node.bump, setTh_th, setTh_keeper, setTh_holder] <;> grind
+        constructor <;> simp only [Node.bump, setTh_th, setTh_keeper, setTh_holder, setTh_used] <;> grind
       · simp only [hk, if_false]
-        constructor <;> simp only [Node.bump, setTh_th, setTh_keeper, setTh_holder] <;> grind
+        constructor <;> simp only [Node.bump, setTh_th, setTh_keeper, setTh_holder, setTh_used] <;> grind
     · -- send
       unfold exec
-      constructor <;> simp only [Node.bump, setTh_th, setTh_keeper, setTh_holder] <;> grind
-    · exact ⟨hact, hl1, hl2, hr, hw, hs, hd⟩
+      constructor <;> simp only [Node.bump, setTh_th, setTh_keeper, setTh_holder, setTh_used] <;> grind
+    · exact ⟨hact, hl1, hl2, hr, hw, hs, hd, hu⟩
 
 theorem inv_run (subs : Nat → Sub) (A : Nat → Prop)
-    (hret : ∀ i j, A i → A j → dropped Cfg.code.window (subs i).now (subs j).key = false)
+    (hret : ∀ i j, A i → A j → droppedAt Cfg.code.window (subs i).now (subs j).now (subs j).key = false)
     (σ : List Act) : ∀ (n : Node), (∀ i, Act.step i ∈ σ → A i) → Inv subs A n →
       Inv subs A (run Cfg.code subs n σ) := by
   induction σ with
@@ -562,7 +632,7 @@ theorem filed_step (subs : Nat → Sub) (A : Nat → Prop) (n : Node) (a : Act)
 
 /-- All three invariants along any schedule. -/
 theorem all_run (subs : Nat → Sub) (A : Nat → Prop)
-    (hret : ∀ i j, A i → A j → dropped Cfg.code.window (subs i).now (subs j).key = false)
+    (hret : ∀ i j, A i → A j → droppedAt Cfg.code.window (subs i).now (subs j).now (subs j).key = false)
     (σ : List Act) : ∀ (n : Node), (∀ i, Act.step i ∈ σ → A i) →
       Inv subs A n → InvS subs n → Filed subs n →
       Inv subs A (run Cfg.code subs n σ) ∧ InvS subs (run Cfg.code subs n σ) ∧
